@@ -28,7 +28,7 @@ def run(ctx):
         m = re.search(r'(assertion failed "[^"]*"|SUMMARY: \S+ \S+|runtime error: [^\n]*)', err)
         violations.append({'signature': 'crash:' + (m.group(1) if m else 'abort'), 'bytes': cs[i].hex(), 'stderr': err[-2500:],
                            'what': 'libdbus aborted / sanitizer report while parsing or reading back these bytes'})
-    bad = vlib.check_cases(recs, shard=500)
+    bad = vlib.check_cases(recs, shard=500, devnames=('LenientUniqueName',))
     for i in bad:
         r = recs[i]
         violations.append({'signature': 'demarshal:acc=%d:need=%d:%s' % (r['acc'], r['need'], bytes(r['b'])[:48].hex()), 'bytes': bytes(r['b']).hex(),
@@ -56,5 +56,5 @@ def replay(ctx, path):
     o = outs[0]
     o.pop('re', None)
     o.pop('ename', None)
-    bad = vlib.check_cases([dict(o, k='dem', b=list(bytes.fromhex(v['bytes'])))])
+    bad = vlib.check_cases([dict(o, k='dem', b=list(bytes.fromhex(v['bytes'])))], devnames=('LenientUniqueName',))
     return {'coverage': {}, 'violations': [v] if bad else []}
